@@ -1,0 +1,38 @@
+//go:build verif
+
+package value
+
+import (
+	"fmt"
+	"github.com/hneemann/parser2/listMap"
+)
+
+// VerifMapRepr describes the nesting of the storage wrappers of a map, e.g.
+// "append(merge(list,replace3(list,real)))". It is used by the verification
+// harness to measure which representations a run has reached; it has no
+// influence on any result.
+func VerifMapRepr(m Map) string {
+	return verifStorageRepr(m.m)
+}
+
+func verifStorageRepr(s MapStorage) string {
+	switch st := s.(type) {
+	case Map:
+		return verifStorageRepr(st.m)
+	case listMap.ListMap[Value]:
+		return "list"
+	case AppendMap:
+		return "append(" + verifStorageRepr(st.parent) + ")"
+	case MergeMap:
+		return "merge(" + verifStorageRepr(st.a) + "," + verifStorageRepr(st.b) + ")"
+	case ReplaceMap:
+		return fmt.Sprintf("replace%d(%s,%s)", st.depth, verifStorageRepr(st.orig), verifStorageRepr(st.rep))
+	case RealMap:
+		return "real"
+	case emptyMapStorage:
+		return "empty"
+	case bin:
+		return "bin"
+	}
+	return fmt.Sprintf("%T", s)
+}
